@@ -1,8 +1,8 @@
 (* C06 - debug_trail changes only error reporting, never what is accepted or returned.
-   Statements only; proofs in Proofs/LoadProofs.v. `load U md sc` are the three separately written interpreters of
+   Statements only; proofs in Proofs/LoadProofs.v and Proofs/ModesProofs.v. `load U md sc` are the three separately written interpreters of
    Model/Load.v (one per debug mode, as the library has three closure factories per container). *)
 From Coq Require Import List ZArith Bool String.
-From AV Require Import Model.Val Model.Load Proofs.LoadProofs.
+From AV Require Import Model.Val Model.Load Proofs.LoadProofs Proofs.ModesProofs.
 Import ListNotations.
 
 (* all three modes accept the same data and return the same value, for every type, datum and coercion mode *)
@@ -24,3 +24,27 @@ Proof.
   destruct (load U m2 sc t v) as [a|e'|x]; simpl in *; [discriminate | eauto | contradiction].
 Qed.
 Print Assumptions C06_failure_in_one_mode_is_failure_in_all.
+
+(* third sentence of the property: the single error reported with DebugTrail.FIRST is one of the errors collected with
+   DebugTrail.ALL.  `eleaves e` are the leaves of an error tree (exception class and offending datum); the FIRST tree
+   is a chain to one leaf (or the leaves of a failed union), the ALL tree is the aggregate; every leaf of the former is
+   a leaf of the latter.  For every type, datum and coercion mode. *)
+Theorem C06_first_error_is_among_all_errors : forall (U : nat -> pv -> res), (forall n v, no_exn (U n v)) -> forall sc t v e1,
+  load U First sc t v = Err e1 -> exists e2, load U All sc t v = Err e2 /\ incl (eleaves e1) (eleaves e2).
+Proof. exact first_error_is_among_all_errors. Qed.
+Print Assumptions C06_first_error_is_among_all_errors.
+
+(* and for DebugTrail.DISABLE (which loads dict values before keys and raises without trail): for types without unions,
+   where a failing union under DISABLE raises one plain LoadError standing for all its cases *)
+Theorem C06_disable_error_is_among_all_errors : forall (U : nat -> pv -> res), (forall n v, no_exn (U n v)) -> forall sc t, union_free t -> forall v e1,
+  load U Disable sc t v = Err e1 -> exists e2, load U All sc t v = Err e2 /\ incl (eleaves e1) (eleaves e2).
+Proof. exact disable_error_is_among_all_errors. Qed.
+Print Assumptions C06_disable_error_is_among_all_errors.
+
+(* non-vacuity: a list of ints with two bad items: FIRST reports the first, ALL reports both *)
+Example C06_first_among_all_example :
+  let U := fun (_ : nat) (v : pv) => Ok v in
+  let t := TIter KList TInt in let v := VList [VInt 1; VStr "a"; VStr "b"] in
+  exists e1 e2, load U First false t v = Err e1 /\ load U All false t v = Err e2 /\
+                List.length (eleaves e1) = 1%nat /\ List.length (eleaves e2) = 2%nat /\ incl (eleaves e1) (eleaves e2).
+Proof. vm_compute. do 2 eexists. repeat split; try reflexivity. intros x [<-|[]]. left. reflexivity. Qed.
